@@ -89,6 +89,50 @@ def run(res):
                 h.notes.append('a variable outside the ordering did not raise RuntimeError: %r' % (r,))
         h.close()
         hs.append(h)
+    # scale: operands with thousands of nodes (14-22 variables); the result is compared with the expressions evaluated
+    # in Python on random assignments, and walked for ordering / distinct children
+    big = 0
+    for rounds in range(2 if quick else 10):
+        k = rng.choice([8, 10, 11])
+        xs = ['x%d' % i for i in range(k)]
+        ys = ['y%d' % i for i in range(k)]
+        order = xs + ys if rounds % 2 == 0 else [v for p in zip(xs, ys) for v in p]
+        fam = {
+            'pairs': ' | '.join('(%s & %s)' % (x, y) for x, y in zip(xs, ys)),
+            'xor': None,
+            'maj': ' | '.join('(%s & %s & %s)' % (xs[i], ys[i], xs[(i + 1) % k]) for i in range(k)),
+        }
+        f = OBDD(fam['pairs'], list(order))
+        g = OBDD(xs[0], list(order))
+        for x in xs[1:]:
+            g = g ^ OBDD(x, list(order))
+        h = OBDD(fam['maj'], list(order))
+        evalf = lambda env: any(env[x] and env[y] for x, y in zip(xs, ys))
+        evalg = lambda env: sum(env[x] for x in xs) % 2 == 1
+        evalh = lambda env: any(env[xs[i]] and env[ys[i]] and env[xs[(i + 1) % k]] for i in range(k))
+        trials = [('f & g', lambda: f & g, lambda e: evalf(e) and evalg(e)), ('g & f', lambda: g & f, lambda e: evalf(e) and evalg(e)),
+                  ('f | h', lambda: f | h, lambda e: evalf(e) or evalh(e)), ('f ^ h', lambda: f ^ h, lambda e: evalf(e) != evalh(e)),
+                  ('~f', lambda: ~f, lambda e: not evalf(e)), ('f ^ f', lambda: f ^ f, lambda e: False),
+                  ('f.restrict(%s,1)' % xs[0], lambda: f.restrict(xs[0], True), lambda e: evalf(dict(e, **{xs[0]: True}))),
+                  ('h.restrict(%s,0)' % ys[1], lambda: h.restrict(ys[1], False), lambda e: evalh(dict(e, **{ys[1]: False})))]
+        for name, build, ev in trials:
+            big += 1
+            r = B.attempt(build)
+            if isinstance(r, tuple):
+                res.violation('C17 at scale (%d variables): %s raised %s' % (2 * k, name, r[1]),
+                              {'ordering': order, 'f': fam['pairs'], 'g': 'xor of ' + ' '.join(xs), 'h': fam['maj'], 'operation': name})
+                continue
+            wrong = None
+            for _ in range(300):
+                env = {v: rng.random() < 0.5 for v in order}
+                if B.impl_eval(r.root, env) != bool(ev(env)):
+                    wrong = env
+                    break
+            if wrong is not None:
+                res.violation('C17 at scale (%d variables): %s denotes the wrong function' % (2 * k, name),
+                              {'ordering': order, 'operation': name, 'assignment': {k_: int(v) for k_, v in wrong.items()}})
+            elif not B.ordered_reduced(r.root, order):
+                res.violation('C17 at scale: the result of %s is not ordered/reduced' % name, {'ordering': order, 'operation': name})
     st = B.run_histories(res, hs, 'C17')
     problems = proof_coverage(res, THEOREMS, MODULES)
     for p in problems:
@@ -99,6 +143,6 @@ def run(res):
         'rule': 'random expression pairs (depth<=3) over <=4 variables under an ordering drawn from all 24; per pair: '
                 '&, |, ^, ~, restrict for every (v,b), variables(); truth tables on all assignments compared with the '
                 'expressions evaluated in Python; distinct_nontrivial = distinct (ordering, pair) histories',
-        'truth_tables_compared': direct,
+        'truth_tables_compared': direct, 'large_operand_operations': big,
         'traces_validated_against_impl': len(hs),
     })
